@@ -1,4 +1,6 @@
 import Abyss.Props.C03
+import Abyss.Props.C03Snapshot
+#print axioms Abyss.C16_recovered_image
 #print axioms Abyss.Buf.C16_reported
 #print axioms Abyss.Buf.C16_memory_intact
 #print axioms Abyss.Buf.C16_recovers
